@@ -90,21 +90,20 @@ fn c19_roll_slice_forms_l9() {
     kani::cover!(n == 8);
 }
 
-/// From new(): after k <= 9 bytes the value equals the definition over the trailing window
-/// (zero padded), i.e. depends only on the last seven bytes.
-#[kani::proof]
-#[kani::unwind(11)]
-fn c19_roll_value_from_new_k9() {
-    let buf: [u8; 9] = kani::any();
+/// From new(): after k <= K bytes the value equals the definition over the trailing window
+/// (zero padded), i.e. depends only on the last seven bytes.  (Base case of the inductive
+/// SMT obligation; CBMC is slow on this arithmetic, hence the ladder of K.)
+fn roll_value_from_new<const K: usize>() {
+    let buf: [u8; K] = kani::any();
     let n: usize = kani::any();
-    kani::assume(n <= 9);
+    kani::assume(n <= K);
     let mut r = RollingHash::new();
     r.update(&buf[..n]);
     let mut w = [0u8; 7];
     let mut k = 0;
     while k < 7 {
         // w[k] = byte at position n - 7 + k (0 if before the start)
-        if n + k >= 7 && n + k - 7 < 9 {
+        if n + k >= 7 && n + k - 7 < K {
             w[k] = buf[n + k - 7];
         }
         k += 1;
@@ -112,6 +111,15 @@ fn c19_roll_value_from_new_k9() {
     assert!(r.value() == spec_roll_value(&w));
     assert!(RollingHash::default() == RollingHash::new());
     assert!(RollingHash::new().value() == 0);
-    kani::cover!(n == 9);
-    kani::cover!(n == 7 && r.value() == u32::MAX);
+    kani::cover!(n == K);
+    kani::cover!(n == K && r.value() == u32::MAX || K < 7);
 }
+#[kani::proof]
+#[kani::unwind(11)]
+fn c19_roll_value_from_new_k2() { roll_value_from_new::<2>() }
+#[kani::proof]
+#[kani::unwind(11)]
+fn c19_roll_value_from_new_k4() { roll_value_from_new::<4>() }
+#[kani::proof]
+#[kani::unwind(11)]
+fn c19_roll_value_from_new_k9() { roll_value_from_new::<9>() }
